@@ -46,11 +46,17 @@ Theorem C12_no_leak : forall l, quiescent (run l) -> forall r, r < nreg (run l) 
   r_kind (reg (run l) r) <> 2 -> r_live (reg (run l) r) = false /\ r_unmaps (reg (run l) r) = 1%nat.
 Proof. exact no_leak_lemma. Qed.
 
-(* FULL STATEMENT NOT PROVED:  forall ops, slots_ok ops = true -> ok_C12 ops (run_C12 ops) = true.
-   Proved instead: the [live] component of every observation the machine produces is the one the
-   checker demands, with "reachable" read through [owners] (C12_owners_pos_iff_reaches); the missing
-   part is the simulation between the checker's per-handle region lists and the machine's (equal up
-   to permutation: insert_region sorts) for the st / val components. *)
+(* the machine satisfies the executable checker ok_C12 (which judges the REAL observations on every
+   run) on ALL histories: every st / val / live component the machine reports is what the checker
+   demands.  The proof is a simulation between the checker's reference state and the machine: the same
+   region table, and handle by handle the same regions up to permutation (insert_region sorts its
+   vector, the checker keeps insertion order; remove_region removes by index, the checker the first
+   occurrence); snapshots through the machine's Arc table.  No side condition on the history. *)
+Theorem C12_model_ok : forall ops, ok_C12 ops (run_C12 ops) = true.
+Proof. exact C12_model_ok_lemma. Qed.
+
+(* (kept; subsumed by C12_model_ok) the [live] component of every observation the machine produces is
+   the one the checker demands, with "reachable" read through [owners] (C12_owners_pos_iff_reaches) *)
 Theorem C12_model_live_partial : forall l,
   mask_live (run l) = mask_upto (N.to_nat (nreg (run l)))
      (fun r => (r_kind (reg (run l) r) =? 2) || negb (Nat.eqb (owners r (run l)) 0)).
@@ -80,4 +86,5 @@ Print Assumptions C12_no_dangling.
 Print Assumptions C12_unmapped_once.
 Print Assumptions C12_raw_never_unmapped.
 Print Assumptions C12_no_leak.
+Print Assumptions C12_model_ok.
 Print Assumptions C12_model_live_partial.
